@@ -107,7 +107,7 @@ class DiagGen:
                 self.block(target, 1, files)
         kind = r.weighted([('undefined', 5), ('runtime', 4), ('parse', 3), ('line', 4), ('trace', 3)])
         indent = r.choice(['', ' ', '  ', '\t', '    ', '\t\t '])
-        lead = r.choice(['', '', 'p = 1; ', 'q = [1,2]; r = 3; ', 'MLS'])
+        lead = r.choice(['', '', 'p = 1; ', 'q = [1,2]; r = 3; ', 'MLS', 't = "a""b"; ', "t = 'it''s'; ", 't = """" + "x"""; '])
         u = self.uid()
         line_no = len(target.lines) + 1
         if lead == 'MLS' and kind == 'trace':
@@ -180,7 +180,7 @@ class DiagGen:
                 f.add('h%d = %d; /* behind */' % (u, u))
         kind = r.weighted([('undefined', 4), ('runtime', 3), ('parse', 3)])
         indent = r.choice(['', ' ', '  ', '\t', '    '])
-        lead = r.choice(['', '', 'p = 1; ', '/* c */ ', 'q = 2; /* cc */ ', 'MLS', 'MLC'])
+        lead = r.choice(['', '', 'p = 1; ', '/* c */ ', 'q = 2; /* cc */ ', 'MLS', 'MLC', 't = "a""b"; ', "t = 'it''s' + ''''; ", 't = """"; '])
         line_no = len(f.lines) + 1
         if lead in ('MLS', 'MLC'):
             # a string or a block comment that runs over a line end in front of the fault
